@@ -336,6 +336,8 @@ def extract_fn(repo, blk, meta, mode):
     item = X.drop_cfg_features(item, log)
     item = X.drop_attrs(item, log)
     item = X.drop_vis(item, log)
+    if 'implfuture' in blk.flags:
+        item = X.desugar_impl_future(item, log)
     item = X.erase_async(item, log, awaitcall=blk.awaitcall)
     item = X.closure_underscore(item, log)
     if 'dropuses' in blk.flags:
